@@ -72,6 +72,10 @@ impl Pooled for C18 {
                 let lex = format!("{ctx}{bad}{ctx}");
                 f(&Case { triples: vec![[ex("s"), ex("p"), ATerm::lit(&lex)]], indents: vec![0, 2] });
                 f(&Case { triples: vec![[ex("s"), ex("p"), ATerm::lang(&lex, "en")]], indents: vec![0] });
+                // every literal kind: datatyped, rdf:XMLLiteral, rdf:HTML, xsd:integer
+                for dt in ["http://ex.org/dt".to_string(), format!("{RDF}XMLLiteral"), format!("{RDF}HTML"), format!("{XSD}integer")] {
+                    f(&Case { triples: vec![[ex("s"), ex("p"), ATerm::typed(&lex, &dt)]], indents: vec![0, 3] });
+                }
             }
         }
         // (3) predicates with various namespace split points
@@ -245,7 +249,7 @@ pub fn run(tier: Tier) -> Report {
     rep.violations = o.violations;
     rep.caps = o.caps;
     rep.rule = format!(
-        "literal text = every string of length <= {} over [a < > & \" ' space LF CR TAB ] U+10000 U+0085 U+2028 '&amp;' U+D7FF U+E000 U+FFFD U+10FFFF] in plain / language-tagged / datatyped / rdf:XMLLiteral-typed literals; XML-illegal characters (NUL, U+0001, U+FFFE, U+FFFF) in three contexts; predicates (and the same IRIs as subject, object and datatype) over 3 bases x 14 endings (#p /p /1p /p.q / # :p é /p-1 /_ #é1 /a/%41 ?q=p /p·); every graph of 2..{} triples over a 30-triple universe with shared blank nodes; inexpressible triples mixed in; indentation 0..8 (0 plus a rotating value for every case, all nine on a slice); oracle: the serializer fails, or the output is well-formed XML according to an independent recogniser and parses (toolkit parser) to a graph isomorphic to the expressible part, identically for every indentation; graphs with XML-legal text and QName-able predicates must be accepted; non-trivial = output needed escaping, node IDs or xml:lang",
+        "literal text = every string of length <= {} over [a < > & \" ' space LF CR TAB ] U+10000 U+0085 U+2028 '&amp;' U+D7FF U+E000 U+FFFD U+10FFFF] in plain / language-tagged / datatyped / rdf:XMLLiteral-typed literals; XML-illegal characters (NUL, U+0001, U+FFFE, U+FFFF) in three contexts x six literal kinds (plain, tagged, 4 datatypes); predicates (and the same IRIs as subject, object and datatype) over 3 bases x 14 endings (#p /p /1p /p.q / # :p é /p-1 /_ #é1 /a/%41 ?q=p /p·); every graph of 2..{} triples over a 30-triple universe with shared blank nodes; inexpressible triples mixed in; indentation 0..8 (0 plus a rotating value for every case, all nine on a slice); oracle: the serializer fails, or the output is well-formed XML according to an independent recogniser and parses (toolkit parser) to a graph isomorphic to the expressible part, identically for every indentation; graphs with XML-legal text and QName-able predicates must be accepted; non-trivial = output needed escaping, node IDs or xml:lang",
         tier.pick(2, 3),
         tier.pick(2, 3)
     );
